@@ -60,6 +60,9 @@ func NewSymbols(grammar *ast.Grammar) *Symbols {
 	}
 
 	for _, p := range grammar.SyntaxPart.ProdList {
+		if reserved(p.Id) {
+			panic(fmt.Sprintf("%s is reserved and cannot be used as a production name", p.Id))
+		}
 		if _, exist := symbols.ntIdMap[p.Id]; !exist {
 			symbols.ntTypeMap = append(symbols.ntTypeMap, p.Id)
 			symbols.ntIdMap[p.Id] = len(symbols.ntTypeMap) - 1
@@ -67,6 +70,9 @@ func NewSymbols(grammar *ast.Grammar) *Symbols {
 		symbols.Add(p.Id)
 		for _, sym := range p.Body.Symbols {
 			symStr := sym.SymbolString()
+			if reserved(symStr) {
+				panic(fmt.Sprintf("%s is reserved and cannot be used as a symbol of the grammar", symStr))
+			}
 			symbols.Add(symStr)
 			if _, ok := sym.(ast.SyntaxStringLit); ok {
 				if _, exist := symbols.ntIdMap[symStr]; exist {
@@ -80,6 +86,13 @@ func NewSymbols(grammar *ast.Grammar) *Symbols {
 		}
 	}
 	return symbols
+}
+
+// reserved reports whether id is one of the two symbols every grammar contains
+// implicitly (token types 0 and 1); a grammar symbol with the same spelling would
+// silently share or take over that number.
+func reserved(id string) bool {
+	return id == "INVALID" || id == "␚"
 }
 
 func (this *Symbols) Add(symbols ...string) {
